@@ -142,6 +142,7 @@ def run(chk):
              "running-sum labels; a site vector over local states of different quantum numbers is refused", 8)
     from . import decompose_rules as DR
     DR.hartree_rule(chk, src, "sector-constructor")
+    DR.random_last_site_rule(chk, src, "sector-constructor")
     chk.rule("mask-and-outer", "sector mask and label merge helpers (abstract runs)", 2)
     from .mini_specs import qn_mask_and_outer
     qn_mask_and_outer(chk, src, "mask-and-outer")
